@@ -1969,10 +1969,22 @@ theorem resolveVia_eq {s : S} (h : Wire s) (c : Call) (hc : c ∈ s.calls) :
   unfold resolveVia resolveCall
   rw [hpl]
 
+theorem newFwdFrom_congr (acc : Nat → Bool) (g g' : Call → Call) : ∀ (l : List Call) (off : Nat),
+    (∀ c ∈ l, g c = g' c) → newFwdFrom acc g off l = newFwdFrom acc g' off l := by
+  intro l
+  induction l with
+  | nil => intro _ _; rfl
+  | cons b rest ih =>
+    intro off h
+    simp only [newFwdFrom]
+    rw [h b (List.mem_cons_self), ih (off + 1) (fun c hc => h c (List.mem_cons_of_mem _ hc))]
+
 theorem resolve_eq_local {s : S} (h : Wire s) : resolve s = resolveLocal s := by
   have : s.calls.map (resolveVia s.now s.calls) = s.calls.map (resolveCall s.now) :=
     List.map_congr_left (fun c hc => resolveVia_eq h c hc)
-  simp only [resolve, resolveLocal, this]
+  have h2 := newFwdFrom_congr (acceptingIn s.actors) (resolveVia s.now s.calls) (resolveCall s.now) s.calls 0
+    (fun c hc => resolveVia_eq h c hc)
+  simp only [resolve, resolveLocal, this, h2]
 
 theorem step_eq_local {s : S} (hp : Pre s) (hw : Wire s) (op : Op) :
     step s op = resolveLocal (drainExits (stepCore s op)) :=
